@@ -195,6 +195,15 @@ fn post_bloom(mut f: BloomFilter) {
         f.insert(i);
         let _ = f.contains_and_insert(&(i + 100));
     }
+    {
+        // the count an image declares is used by invert() and the load factor before anything recounts it
+        let mut h = f.clone();
+        h.invert();
+        let _ = (h.bits_used(), h.load_factor(), h.estimated_fpp(), h.is_empty(), h.serialize());
+        h.invert();
+        h.insert(12345u64);
+        let _ = h.bits_used();
+    }
     let g = f.clone();
     f.union(&g);
     f.intersect(&g);
